@@ -642,6 +642,88 @@ pub struct RunOut {
     pub size: usize,
 }
 
+/// Deterministic single-threaded histories INSIDE the refresh window: a second actor performs
+/// `inside` (a few raw give-backs of resources built for the generation current at that moment,
+/// give-backs of items it holds, acquires, count samples) at the refresher's scheduling point
+/// `at` (0 = before set_discriminant, 1 = between set_discriminant and clear, 2 = between clear and
+/// the refill, 3 = after each refilled resource). What a racing thread could do in that window,
+/// without depending on the scheduler.
+pub fn run_window(size: usize, prefilled: bool, pre_acquire: usize, at: u8, inside: &[Op]) -> RunOut {
+    let pool = ResourcePool::<Res>::new(size, initial_resources(size, prefilled));
+    let shared = Shared::new(size as u64);
+    let mut main = Ctx::new(&pool, &shared, 0);
+    let mut aux = Ctx::new(&pool, &shared, 1);
+    if !prefilled {
+        main.refresh(&mut |_| {});
+    }
+    let mut held: Vec<Held> = vec![];
+    for _ in 0..pre_acquire {
+        if let Some(h) = aux.acquire(Duration::ZERO) {
+            held.push(h);
+        }
+    }
+    let mut raws: Vec<RawRes> = vec![];
+    let mut fired = false;
+    main.refresh(&mut |i| {
+        if i != at || fired {
+            return;
+        }
+        fired = true;
+        for op in inside {
+            match *op {
+                Op::Acquire => {
+                    if pool.count().map(|n| n > 0).unwrap_or(false) {
+                        if let Some(h) = aux.acquire(Duration::ZERO) {
+                            held.push(h);
+                        }
+                    }
+                }
+                Op::GiveItem(k) => {
+                    if !held.is_empty() {
+                        let h = held.remove(k as usize % held.len());
+                        aux.give_back_item(h);
+                    }
+                }
+                Op::GiveDrop(k) => {
+                    if !held.is_empty() {
+                        let h = held.remove(k as usize % held.len());
+                        aux.give_back_drop(h);
+                    }
+                }
+                Op::RawPrep => {
+                    if let Some(r) = aux.raw_prepare() {
+                        raws.push(r);
+                    }
+                }
+                Op::RawGive(k) => {
+                    if !raws.is_empty() {
+                        let r = raws.remove(k as usize % raws.len());
+                        aux.raw_give(r);
+                    }
+                }
+                Op::Count => {
+                    aux.sample_count();
+                }
+                Op::Refresh | Op::ResetAvail => {}
+            }
+        }
+    });
+    aux.sample_count();
+    while let Some(h) = held.pop() {
+        aux.give_back_drop(h);
+    }
+    let drained = quiesce(&mut main, size);
+    let mut errors = std::mem::take(&mut main.errors);
+    errors.extend(std::mem::take(&mut aux.errors));
+    let ops = main.ops + aux.ops;
+    let logs = vec![std::mem::take(&mut main.log), std::mem::take(&mut aux.log)];
+    drop(main);
+    drop(aux);
+    let log = merge_logs(logs);
+    drop(drained);
+    RunOut { log, errors, ops, hook: HookStats::default(), refresher_t: 0, size }
+}
+
 fn initial_resources(size: usize, prefilled: bool) -> Vec<Res> {
     if prefilled {
         (0..size as u64).map(|id| Res { id, generation: 0, resets: 0, dirty: false }).collect()
